@@ -361,7 +361,12 @@ def gen_grammar_case(rng, maxdepth):
             last = i == len(p) - 1
             r = rng.random()
             if r < 0.2:
-                toks.append(["**", rng.choice([None, None, "*", 0, 1]), [rng.choice(["=", "!="]), "x"] if rng.random() < 0.15 else None])
+                toks.append(["**", rng.choice([None, None, "*", 0, 1, 1]), [rng.choice(["=", "!="]), rng.choice(["x", e.text or "x"])] if rng.random() < 0.2 else None])
+                if rng.random() < 0.3:
+                    # a (filtered) deep step directly followed by '..' (the shape of the former finding C18-d)
+                    toks.append(None)
+                    if rng.random() < 0.5:
+                        break
                 if rng.random() < 0.5:
                     continue
             t = [tag if rng.random() < 0.75 else "*", rng.choice([None, k, k, "*"]), None]
@@ -821,12 +826,11 @@ def shrink_failure(evaluator, case):
     if fn is None:
         return case
     if "toks" in case:
-        # shrink document and token list only; the expression text is always re-rendered from the tokens
-        def pred(c):
-            c = dict(c, xp=render_expr(c["toks"])) if valid_toks(c.get("toks")) and c.get("toks") else c
-            return valid_case(c) and fn(c) is not None
-        small = core.shrink({k: v for k, v in case.items() if k != "xp"}, pred, budget=600)
-        return dict(small, xp=render_expr(small["toks"]))
+        # the expression (token list and its text) is tied to the document: only the document is shrunk
+        fixed = {"toks": case["toks"], "xp": case["xp"]}
+        small = core.shrink({k: v for k, v in case.items() if k not in fixed},
+                            lambda c: valid_case(dict(c, **fixed)) and fn(dict(c, **fixed)) is not None, budget=600)
+        return dict(small, **fixed)
     return core.shrink(case, lambda c: valid_case(c) and fn(c) is not None, budget=600)
 
 
@@ -1008,6 +1012,16 @@ def run(ctx):
         for toks in ([["**", 1, None], None], [["**", None, ["=", "x"]], None, None], [["a", None, None], None, ["b", "*", None]],
                      [["**", "*", None], ["a", 0, ["!=", "none"]]], [["*", None, None], None, ["*", None, None], None], [None, ["a", None, None]]):
             qcases.append({"doc": d, "pretty": False, "toks": toks, "xp": render_expr(toks)})
+
+    # the former finding C18-d (a filtered '**' directly followed by '..'): witnesses kept as fixed cases
+    d_docs = [["r", None, [], [["a", None, [], [["b", None, [], []], ["b", None, [], []]]], ["a", None, [], []]]],
+              ["r", None, [], [["a", None, [], [["a", None, [], []], ["b", "x", [], []]]], ["a", "x", [], []]]],
+              ["r", None, [], [["a", None, [], [["b", None, [], [["b", None, [], []], ["b", "x", [], []]]], ["b", None, [], []]]], ["a", None, [], []], ["b", None, [], []]]]]
+    for d in d_docs:
+        for toks in ([["**", 1, None], None], [["**", None, ["=", "x"]], None], [["a", None, None], ["**", 1, None], None],
+                     [["**", 1, None], None, ["a", None, None], None], [["**", 1, None], None, ["a", None, None]], [["**", 1, None], None, None]):
+            qcases.append({"doc": d, "pretty": False, "toks": toks, "xp": render_expr(toks)})
+            fcases.append({"doc": d, "pretty": False, "xp": render_expr(toks)})
 
     pcases = [{"doc": c["doc"], "pretty": c["pretty"]} for c in fcases[: n // 2]]
     ctx.correspond("nxml.parse", pcases, lambda c: line_of("nxml.parse", c), lambda c: impl_answer("nxml.parse", c), nontrivial=nt)
